@@ -100,6 +100,14 @@ func c05Case(unit string, T uint16, phase int64, interf string) (string, *TimedC
 		tc.Steps = append(tc.Steps, TStep{At: tb + Tn - 4*sec, Client: 0, Cmd: U(3, 1, 1)})
 		tc.Expect = []Expect{{Req: 2, Kind: "granted", Lo: 0, Hi: Tn}, {Req: 10, Kind: "timeout", Lo: Tn, Hi: hi}, {Req: 11, Kind: "timeout", Lo: Tn, Hi: hi}, {Req: 12, Kind: "timeout", Lo: Tn, Hi: hi}}
 		tc.Horizon = tb + Tn + 9*sec
+	case "process-stalled":
+		// the process is not scheduled for 2.3 s across the waiter's deadline second (or the clock steps forward):
+		// the ticks missed are caught up, the waiter is answered within the usual bound after the stall ends
+		stallAt := tb + Tn - 550*ms
+		tc.Steps = append(tc.Steps, TStep{At: stallAt, Stall: 2300 * ms})
+		tc.Expect = []Expect{{Req: 2, Kind: "timeout", Lo: Tn, Hi: Tn + 2300*ms + 2*sec}}
+		tc.ZeroWait = true
+		tc.Horizon = tb + Tn + 30*sec
 	case "recycled-long-bucket-cancel":
 		// as below, but the second waiter leaves its bucket by being cancelled (no hold is created whose own
 		// expiry record could take the recycled queue)
@@ -204,6 +212,11 @@ func c05Cases(quick bool) []EnumCase {
 			add("s", T, ph, "three-same-deadline-first-granted")
 		}
 	}
+	for _, T := range []uint16{1, 2, 3, 5, 8, 9, 12, 20, 46, 60} {
+		for _, ph := range phases {
+			add("s", T, ph, "process-stalled")
+		}
+	}
 	for _, T := range []uint16{110, 120, 150, 200, 300} {
 		for _, ph := range phases {
 			add("s", T, ph, "recycled-long-bucket")
@@ -262,6 +275,11 @@ func c06Case(unit string, E uint16, phase int64, interf string) (string, *TimedC
 		tc.Steps = append(tc.Steps, TStep{At: tb + 100*ms, Client: 1, Cmd: hapi.Cmd{Type: 1, Req: 2, Key: 1, Id: 2, Timeout: 0xffff, TimeoutFlag: fMinute, Expried: 1}})
 		tc.Expect = []Expect{ex, {Req: 2, Kind: "granted", Lo: En - 100*ms, Hi: hi}}
 		tc.Horizon += 4 * sec
+	case "process-stalled":
+		// the process is not scheduled for 2.3 s across the hold's deadline second: the missed ticks are caught up
+		tc.Steps = append(tc.Steps, TStep{At: tb + En - 550*ms, Stall: 2300 * ms})
+		tc.Expect = []Expect{{Req: 1, Kind: "expried", Lo: En, Hi: En + 2300*ms + 2*sec}}
+		tc.Horizon = tb + En + 30*sec
 	case "co-holder-stays":
 		// a counting key (Count 1) with two holders and a queued third request: when ONE hold expires while the
 		// other stays, the freed slot is served exactly as after an unlock
@@ -394,6 +412,11 @@ func c06Cases(quick bool) []EnumCase {
 			for _, in := range inter {
 				add("s", E, ph, in)
 			}
+		}
+	}
+	for _, E := range []uint16{1, 2, 3, 5, 8, 9, 12, 20, 46, 60} {
+		for _, ph := range phases {
+			add("s", E, ph, "process-stalled")
 		}
 	}
 	for _, E := range []uint16{3, 12, 30, 60, 90} {
